@@ -344,7 +344,19 @@ impl<'a, 'b> G<'a, 'b> {
             }
         }
         let d = depth.saturating_sub(1);
+        if depth > 0 && matches!(t, T::Bool | T::Int | T::Float | T::Str) && self.c.chance(14) {
+            return self.operator_through_param(t);
+        }
         match t {
+            T::Int if depth > 0 && self.c.chance(16) => {
+                // a field of a record of another module whose own type is a type of that module
+                self.tag("field of a foreign record whose type is declared in that module");
+                self.out.push_str(*self.c.pick(&["lib.outer().inner.v", "lib.outer().n", "{ lib.outer().inner }.v"]));
+            }
+            T::Str if depth > 0 && self.c.chance(12) => {
+                self.tag("field of a foreign record whose type is declared in that module");
+                self.out.push_str("lib.outer().inner.w");
+            }
             T::Int => match if depth > 0 { self.c.weighted(&[4, 3, 2, 1]) } else { 0 } {
                 0 => self.out.push_str(*self.c.pick(&["1", "42", "0", "1_000", "0xff"])),
                 1 => {
@@ -1184,6 +1196,34 @@ impl<'a, 'b> G<'a, 'b> {
         }
     }
 
+    /// `fn(p) { p OP literal }(argument)`: the operator alone determines the parameter's type
+    fn operator_through_param(&mut self, t: &T) {
+        self.tag("operator determines an unannotated parameter");
+        let (ops, operand, lit): (&[&str], T, &str) = match t {
+            T::Bool => match self.c.below(3) {
+                0 => (&["<", "<=", ">", ">="], T::Int, "3"),
+                1 => (&["<.", "<=.", ">.", ">=."], T::Float, "2.5"),
+                _ => (&["&&", "||"], T::Bool, "True"),
+            },
+            T::Int => (&["+", "-", "*", "/", "%"], T::Int, "2"),
+            T::Float => (&["+.", "-.", "*.", "/."], T::Float, "0.5"),
+            _ => (&["<>"], T::Str, "\"s\""),
+        };
+        let op = ops[self.c.below(ops.len())];
+        let p = self.fresh("p");
+        self.out.push_str("fn(");
+        let off = self.out.len();
+        self.out.push_str(&p);
+        if self.c.chance(128) {
+            self.out.push_str(&format!(") {{ {} {} {} }}(", p, op, lit));
+        } else {
+            self.out.push_str(&format!(") {{ {} {} {} }}(", lit, op, p));
+        }
+        self.known_arg(&operand, 0, false);
+        self.out.push(')');
+        self.record(&p, off, operand, "lambda parameter");
+    }
+
     fn tuple_index(&mut self, t: &T, depth: usize) {
         self.tag("tuple index");
         let other = self.gen_type(0);
@@ -1255,7 +1295,7 @@ pub struct Program {
 }
 
 pub fn gen_program(c: &mut Choices, f: &Features) -> Program {
-    let lib = "pub type Nums =\n  List(Int)\n\npub type Name =\n  String\n\npub type Entry =\n  #(Int, Name)\n\npub fn same(x: a) -> a {\n  x\n}\n\npub fn twice(x: Int) -> Int {\n  x + x\n}\n".to_string();
+    let lib = "pub type Nums =\n  List(Int)\n\npub type Name =\n  String\n\npub type Entry =\n  #(Int, Name)\n\npub fn same(x: a) -> a {\n  x\n}\n\npub fn twice(x: Int) -> Int {\n  x + x\n}\n\npub type Inner {\n  Inner(v: Int, w: String)\n}\n\npub type Outer {\n  Outer(inner: Inner, n: Int)\n}\n\npub fn outer() -> Outer {\n  Outer(Inner(1, \"s\"), 2)\n}\n".to_string();
     let mut g = G { c, out: String::new(), binders: vec![], env: vec![], tags: vec![], next: 0, f, excluded: BTreeMap::new(), helpers: vec![], lib_helpers: vec![], consts: vec![], tainted: vec![], opaque: vec![], need_known: 0, used_opaque: false };
     g.out.push_str("import lib\n\n");
     g.out.push_str(PRELUDE);
@@ -1348,6 +1388,8 @@ pub fn gen_program(c: &mut Choices, f: &Features) -> Program {
         // generic without annotations, with locals spelled like top-level functions (a local is not
         // a call: the function must stay generalised whoever calls it)
         "fn shadow(x) {\n  let user0 = x\n  let even = user0\n  even\n}\n\n",
+        // a generic recursion group: the members' type variables are all different
+        "fn ping(a, b) {\n  pong(b, a)\n}\n\nfn pong(c, d) {\n  ping(d, c)\n}\n\n",
         // annotated and inferred type variables side by side
         "fn mixed(x: a, y) {\n  let _ = x\n  y\n}\n\n",
         "fn later(x) -> a {\n  let _ = x\n  todo\n}\n\n",
@@ -1375,6 +1417,12 @@ pub fn gen_program(c: &mut Choices, f: &Features) -> Program {
             b.push(Binder { offset: 3, name: "shadow".into(), ty: T::Var("a".into()), what: "function", tags: vec!["function", "generic function", "return type inferred", "locals named like top-level functions"], fn_params: Some(vec![T::Var("a".into())]) });
             let o = h.find("let user0").unwrap() + 4;
             b.push(Binder { offset: o, name: "user0".into(), ty: T::Var("a".into()), what: "let binder", tags: vec!["generic function", "locals named like top-level functions"], fn_params: None });
+        }
+        if h.starts_with("fn ping") {
+            let tags = vec!["function", "generic function", "mutual recursion", "return type inferred"];
+            b.push(Binder { offset: 3, name: "ping".into(), ty: T::Var("c".into()), what: "function", tags: tags.clone(), fn_params: Some(vec![T::Var("a".into()), T::Var("b".into())]) });
+            let o = h.find("fn pong").unwrap() + 3;
+            b.push(Binder { offset: o, name: "pong".into(), ty: T::Var("c".into()), what: "function", tags, fn_params: Some(vec![T::Var("a".into()), T::Var("b".into())]) });
         }
         if h.starts_with("fn mixed") {
             b.push(Binder { offset: 3, name: "mixed".into(), ty: T::Var("b".into()), what: "function", tags: vec!["function", "generic function", "annotated and inferred type variables"], fn_params: Some(vec![T::Var("a".into()), T::Var("b".into())]) });
